@@ -511,7 +511,7 @@ impl Prop for C01 {
         128
     }
     fn cases(&self, t: Tier) -> usize {
-        t.pick(24_000, 400_000)
+        t.pick(60_000, 3_000_000)
     }
     fn rule(&self) -> String {
         "tape-decoded network: input flat 1..8 or c x h x w (c 1-3, h,w 1-7, thorough 9; non-square), 1-4 (thorough 6) layers of dense / convolution / deconvolution / max-pool / feedback block without internal skips in any order that fits, full (filters, kernel, stride, padding, dilation, bias) lattice, element-wise activations, soft-max + cross-entropy head in 1/6 of the cases, all seven objectives, distinct non-constant weights and inputs; 1/4 of the cases are single layers whose public backward() is called in isolation. Oracle: central differences of an independent f64 reference network (path P1, used when the reference reproduces the library's forward pass at the base point and two perturbed points) or of the library's own f32 forward pass with Richardson extrapolation (path P2); every parameter (sampled above 300) and, for isolated layers, every input-gradient component; one learn() step with plain SGD must move each parameter by -lr * gradient. Cases within 2e-3 of an activation kink / pooling tie are discarded (counted). Non-trivial: |g|max > 1e-3 and (depth >= 2 or non-default stride/dilation/padding or >= 2 channels or a feedback block). Distinct = (architecture with all hyper-parameters and activations, objective, soft-max flag).".into()
